@@ -9,6 +9,7 @@ import (
 	"os"
 	"path/filepath"
 	"sync/atomic"
+	"syscall"
 	"testing"
 	"time"
 
@@ -18,8 +19,8 @@ import (
 
 // C09 at the level of the attack command: the real attack() function (real
 // transport, loopback server, real output file) is run for a fraction of a
-// second, and what a kill -9 would leave behind is read from the output file at
-// tape-chosen instants while it runs. This is the one place where the writer of
+// second, and what a kill -9 would leave behind is observed after every write
+// call of the command (the output is a named pipe, see below). This is the one place where the writer of
 // the property ("each encoder emits a result as one whole record per call so
 // that every point between calls is such a boundary") is the CLI itself, which
 // cannot run inside a bubble (it builds its own socket transport). The oracle
@@ -50,8 +51,18 @@ func runAttackFile(t *simrt.Tape, keep bool) simrt.Outcome {
 	}
 	targets := filepath.Join(dir, "af-targets.txt")
 	os.WriteFile(targets, []byte("GET "+afServer.URL+"/\n"), 0o644)
-	out := filepath.Join(dir, "af-out.bin")
+	// The output path is a named pipe. Every write(2) of at most PIPE_BUF (4096) bytes into a pipe is atomic, so
+	// whatever one read returns is a concatenation of whole write calls: the bytes received up to the end of any
+	// read are exactly what a regular file would hold between two write calls of the command, i.e. what a
+	// kill -9 at that instant leaves behind. (Reading a regular file while it is written can observe half of a
+	// write in flight and hold it for milliseconds on a loaded machine; an earlier version of this probe did
+	// that and raised a false alarm once in 9000 runs under load.)
+	out := filepath.Join(dir, "af-out.fifo")
 	os.Remove(out)
+	if err := syscall.Mkfifo(out, 0o644); err != nil {
+		fmt.Println("INFRA: mkfifo:", err)
+		os.Exit(2)
+	}
 	rate := []int{100, 300, 1000}[t.Choose(3)]
 	du := time.Duration(150+t.Choose(250)) * time.Millisecond
 	opts := &attackOpts{
@@ -61,66 +72,88 @@ func runAttackFile(t *simrt.Tape, keep bool) simrt.Outcome {
 		laddr: localAddr{&vegeta.DefaultLocalAddr}, keepalive: true, http2: true,
 	}
 	r.log.Addf("rate=%d", rate) // durations of a real run are not part of the canonical log
-	done := make(chan error, 1)
+	type readerReport struct {
+		snapshots int
+		torn      string
+		bytes     int
+		err       error
+	}
+	rep := make(chan readerReport, 1)
 	go func() {
+		var rr readerReport
+		f, err := os.Open(out) // blocks until the command opens the pipe for writing
+		if err != nil {
+			rr.err = err
+			rep <- rr
+			return
+		}
+		defer f.Close()
+		var all []byte
+		buf := make([]byte, 1<<16)
+		clean := 0 // number of bytes of all that are known to decode to whole records
+		records := 0
+		for {
+			n, err := f.Read(buf)
+			if n > 0 {
+				all = append(all, buf[:n]...)
+				rr.snapshots++
+				// decode what came after the last clean boundary; gob needs the stream from its start for its type
+				// definitions, so the whole prefix is decoded again when the tail does not stand alone
+				dec := vegeta.NewDecoder(bytes.NewReader(all))
+				k := 0
+				var derr error
+				for {
+					var x vegeta.Result
+					if derr = dec.Decode(&x); derr != nil {
+						break
+					}
+					k++
+				}
+				// gob sends its type definitions in messages of their own ahead of the first value: until the first
+				// record is complete a decoder reports an unexpected end without returning anything, which is a
+				// clean prefix of zero records
+				if derr != io.EOF && !(k == 0 && derr == io.ErrUnexpectedEOF) && rr.torn == "" {
+					rr.torn = fmt.Sprintf("after a write call of the attack command the output holds %d bytes, which decode to %d results and then end with %q: the output does not end at a record boundary between two write calls", len(all), k, derr)
+				}
+				clean, records = len(all), k
+			}
+			if err != nil {
+				break
+			}
+		}
+		_, _ = clean, records
+		rr.bytes = len(all)
+		rep <- rr
+	}()
+	var err error
+	func() {
 		defer func() {
 			if pv := recover(); pv != nil {
-				done <- fmt.Errorf("panic: %v", pv)
+				err = fmt.Errorf("panic: %v", pv)
 			}
 		}()
-		done <- attack(opts)
+		err = attack(opts)
 	}()
-	// the instants are drawn up front so that the tape does not depend on how long the real run takes
-	var delays [64]time.Duration
-	for i := range delays {
-		delays[i] = time.Duration(3+t.Choose(25)) * time.Millisecond
+	var rr readerReport
+	select {
+	case rr = <-rep:
+	case <-time.After(20 * time.Second):
+		// the command never opened its output: unblock the reader
+		if f, e := os.OpenFile(out, os.O_WRONLY|syscall.O_NONBLOCK, 0); e == nil {
+			f.Close()
+		}
+		rr = <-rep
 	}
-	snapshots, torn := 0, ""
-	var err error
-	running := true
-	for running {
-		select {
-		case err = <-done:
-			running = false
-		case <-time.After(delays[snapshots%len(delays)]):
-		}
-		data, rerr := os.ReadFile(out)
-		if rerr != nil {
-			continue
-		}
-		// what is on the file now is what a kill -9 at this instant leaves behind
-		decodeAll := func(data []byte) (int, error) {
-			dec := vegeta.NewDecoder(bytes.NewReader(data))
-			n := 0
-			for {
-				var x vegeta.Result
-				if err := dec.Decode(&x); err != nil {
-					return n, err
-				}
-				n++
-			}
-		}
-		n, derr := decodeAll(data)
-		snapshots++
-		if derr != io.EOF && running {
-			// a read can race with one write system call that is being copied into the page cache (the file
-			// size grows page by page): a torn tail only counts if it is still there, unchanged, 5 ms later
-			time.Sleep(5 * time.Millisecond)
-			again, _ := os.ReadFile(out)
-			if len(again) != len(data) {
-				continue
-			}
-			n, derr = decodeAll(again)
-		}
-		if derr != io.EOF && torn == "" {
-			torn = fmt.Sprintf("snapshot of the output file taken while the attack was running (%d bytes) decodes to %d results and then ends with %q: the file does not end at a record boundary between two results", len(data), n, derr)
-		}
+	snapshots, torn := rr.snapshots, rr.torn
+	if rr.err != nil {
+		fmt.Println("INFRA: reading the pipe:", rr.err)
+		os.Exit(2)
 	}
 	if err != nil {
 		r.fail("C09.attack-error", nil, "attack command failed: %v", err)
 	} else if torn != "" {
 		r.fail("C09.cli-torn-record", map[string]string{"nominimise": "1"}, "%s", torn)
 	}
-	r.stats["fault.file-snapshot-mid-attack"] += snapshots
+	r.stats["fault.output-observed-between-write-calls"] += snapshots
 	return r.outcome(map[string]any{"rate_per_s": rate, "snapshots": snapshots}, true)
 }
